@@ -476,7 +476,7 @@ pub fn table() -> Vec<Case> {
 }
 
 pub fn run(ctx: &Ctx) {
-    ctx.rule("non-negative integers 0..2^53 (0, 1, powers of two +-1, 2^31-1, 2^31, 2^32, random) as literals in base 16/8/2 (both prefix cases, hex digits in lower/upper/mixed case) and base 10 (also fractional: non-tie fractions and exact .5), 'N [to] hex|hexadecimal|octal|binary|decimal', arithmetic + - * between literals of any base; boundary table x 4 source bases x 5 targets x with/without 'to' enumerated; oracle: independent radix formatter and parser: literal value and kind, printed = exact prefix 0x/0o/0b + digits of round(N) (hex compared case-insensitively, an exact tie accepts either neighbour), the printed literal typed back yields the same integer and kind; non-trivial = N >= 16 and source base != target base");
+    ctx.rule("non-negative integers 0..2^53 (0, 1, powers of two +-1, 2^31-1, 2^31, 2^32, random) as literals in base 16/8/2 (both prefix cases, hex digits in lower/upper/mixed case) and base 10 (also fractional: non-tie fractions and exact .5), 'N [to] hex|hexadecimal|octal|binary|decimal', arithmetic + - * between literals of any base; boundary table x 4 source bases x 5 targets x with/without 'to' enumerated; based literals zero-padded by 1-8 and up to 70 digits; N also a percentage phrase over a based literal (10% of 0x19 to hex); oracle: independent radix formatter and parser: literal value and kind, printed = exact prefix 0x/0o/0b + digits of round(N) (hex compared case-insensitively, an exact tie accepts either neighbour), the printed literal typed back yields the same integer and kind; non-trivial = N >= 16 and source base != target base");
     ctx.assume("N <= 2^53 (beyond that an f64 is not an integer any more); literals longer than 16 hex digits belong to C01; negative numbers are outside the statement");
     ctx.run_table(&Based, "boundary-table", table(), true);
     ctx.run_generated(&Based, ctx.tier.pick(100_000, 1_000_000), case_strategy);
